@@ -261,35 +261,50 @@ def _tmpfile(lines):
     return p
 
 
-def _callbacks(spec, is_async):
-    """read_callback callbacks; each writes its `send` line when `contains` shows up"""
+def _callbacks(spec, is_async, log=None):
+    """read_callback callbacks.  Each logs its invocation (name, run number, what it was given), may RAISE on listed run numbers, and
+    otherwise writes its `send` line.  On the asyncio stack a callback is a coroutine function unless `coro` is false."""
     from scrapli.driver.generic.base_driver import ReadCallback
+    log = log if log is not None else []
     cbs = []
     for c in spec:
-        send = c.get("send")
+        def mk(c=c):
+            state = {"n": 0}
 
-        def mk(send=send):
+            def body(conn, out):
+                state["n"] += 1
+                log.append([c.get("name", "cb"), state["n"], out[-60:]])
+                if state["n"] > 8:
+                    # a callback that keeps matching what its own input produces would recurse until Python's recursion limit, which the two
+                    # stacks reach at different depths; end such histories at the same run on both stacks instead
+                    raise RuntimeError("callback loop guard")
+                if state["n"] in (c.get("raise_on") or []):
+                    raise _exc(c.get("raise_exc", "ValueError"))(f"callback {c.get('name', 'cb')} run {state['n']}")
+                if c.get("send") is not None:
+                    conn.channel.write(c["send"])
+                    conn.channel.send_return()
             if is_async and c.get("coro", True):
                 async def cb(conn, out):
-                    if send is not None:
-                        conn.channel.write(send)
-                        conn.channel.send_return()
+                    body(conn, out)
                 return cb
 
             def cb(conn, out):
-                if send is not None:
-                    conn.channel.write(send)
-                    conn.channel.send_return()
+                body(conn, out)
             return cb
+        kw = {}
+        for k in ("not_contains", "case_insensitive", "multiline", "next_timeout"):
+            if k in c:
+                kw[k] = c[k]
         cbs.append(ReadCallback(callback=mk(), contains=c.get("contains", ""), contains_re=c.get("contains_re", ""),
                                 complete=c.get("complete", False), only_once=c.get("only_once", False),
                                 reset_output=c.get("reset_output", True), name=c.get("name", "cb"),
-                                next_delay=c.get("next_delay", 1e-6)))
+                                next_delay=c.get("next_delay", 1e-6), **kw))
     return cbs
 
 
 def interp(conn, scn, obs, is_async, donor=None):
     """the scenario interpreter: yields (callable, args, kwargs); is sent the (awaited) result or thrown the exception"""
+    cbsets, shared_log = {}, []
     for op in scn["ops"]:
         name, args = op[0], list(op[1:])
         kw = dict(args.pop()) if args and isinstance(args[-1], dict) else {}
@@ -313,7 +328,20 @@ def interp(conn, scn, obs, is_async, donor=None):
             elif name == "read_callback":
                 kw = dict(kw)
                 kw.setdefault("read_delay", 1e-6)
-                r = yield (conn.read_callback, (), {"callbacks": _callbacks(args[0], is_async), **kw})
+                cb_log = rec["cb_log"] = []
+                if isinstance(args[0], str):            # a NAMED callbacks list of the scenario: the same objects on every call
+                    if args[0] not in cbsets:
+                        cbsets[args[0]] = [_callbacks(scn["cbsets"][args[0]], is_async, shared_log), shared_log]
+                    cbs, lg = cbsets[args[0]]
+                    mark = len(lg)
+                else:
+                    lg = []
+                    cbs, mark = _callbacks(args[0], is_async, lg), 0
+                try:
+                    r = yield (conn.read_callback, (), {"callbacks": cbs, **kw})
+                finally:
+                    cb_log.extend(lg[mark:])
+                    rec["cb_state"] = [[c.name, bool(c._triggered)] for c in cbs]
             elif name == "channel_send_input":
                 r = yield (conn.channel.send_input, tuple(args), kw)
             elif name == "set":                      # attribute assignment on the driver (e.g. _generic_driver_mode, timeout_ops)
@@ -399,7 +427,7 @@ async def run_async(scn):
 
 
 # ------------------------------------------------------------------ pairwise oracle
-PRIMARY_OP_FIELDS = ("exc", "ret", "priv", "nw", "timeout_ops", "timeout_transport")
+PRIMARY_OP_FIELDS = ("exc", "ret", "priv", "nw", "timeout_ops", "timeout_transport", "cb_log", "cb_state")
 
 
 def compare(s, a):
